@@ -23,6 +23,8 @@ fn c02_domain() -> Domain {
     let mut d = Domain::general();
     d.data_oriented = true;
     d.no_prefix_clash = true;
+    // programs are expensive: weight the classes whose names collide or are illegal somewhere
+    d.elem_classes = vec![("plain", 3), ("prefixed", 3), ("multicolon", 1), ("keyword", 4), ("case", 4), ("separator", 3), ("concat", 6), ("std", 4), ("trap", 3), ("nonascii", 2), ("digit", 1), ("long", 1)];
     d.max_nodes = 22;
     d.max_docs = 4;
     d
@@ -36,6 +38,7 @@ fn c13_domain(known_slice: bool) -> Domain {
     d.attr_child_disjoint = true;
     d.split_leaf_struct = !known_slice;
     d.ns_free = true;
+    d.elem_classes = vec![("plain", 3), ("keyword", 4), ("case", 4), ("separator", 3), ("concat", 6), ("std", 4), ("trap", 3), ("nonascii", 2), ("digit", 1), ("long", 1)];
     d.max_nodes = 22;
     d.max_docs = 4;
     d
@@ -251,6 +254,60 @@ impl Property for ProgProp {
             Some(n) => ((n + 31) / 32, 32),
             None => (batches, size),
         };
+        // stage 1 (cheap, many cases): necessary conditions for compilation, checked without rustc
+        let pre_n: usize = std::env::var("XSGV_PRECHECK").ok().and_then(|s| s.parse().ok()).unwrap_or(match tier {
+            Tier::Quick => 40_000,
+            Tier::Thorough => 1_500_000,
+        });
+        {
+            let pre = gen_tapes(self, seed ^ 0x9e37, pre_n);
+            let bad: Mutex<Option<(Failure, Tapes)>> = Mutex::new(None);
+            let counted = AtomicU64::new(0);
+            std::thread::scope(|s| {
+                for w in 0..16usize {
+                    let pre = &pre;
+                    let bad = &bad;
+                    let counted = &counted;
+                    s.spawn(move || {
+                        for (i, t) in pre.iter().enumerate() {
+                            if i % 16 != w {
+                                continue;
+                            }
+                            if i % 512 == w && bad.lock().unwrap().is_some() {
+                                return;
+                            }
+                            let r = match self.build(t) {
+                                Err(f) => Err(f),
+                                Ok((p, pc)) => match crate::rendered::read_syn(&pc.source[HEADER.len()..]) {
+                                    Err(e) => Err(Failure::new(format!("the generated source cannot compile: {}", e)).with_signature("compile_error").with_detail(json!({"case": describe_case(&p), "generated_source": pc.source}))),
+                                    Ok(defs) => match super::c04::well_formed(&defs).and_then(|_| match defs.iter().find(|d| d.name == "Serialize" || d.name == "Deserialize") {
+                                        Some(d) => Err(format!("struct `{}` clashes with the serde import of the header", d.name)),
+                                        None => Ok(()),
+                                    }) {
+                                        Err(e) => Err(Failure::new(format!("the generated source cannot compile: {}", e)).with_signature("compile_error").with_detail(json!({"case": describe_case(&p), "generated_source": pc.source}))),
+                                        Ok(()) => Ok(()),
+                                    },
+                                },
+                            };
+                            counted.fetch_add(1, Ordering::Relaxed);
+                            if let Err(f) = r {
+                                let mut g = bad.lock().unwrap();
+                                if g.is_none() {
+                                    *g = Some((f, t.clone()));
+                                }
+                                return;
+                            }
+                        }
+                    });
+                }
+            });
+            let n = counted.load(Ordering::Relaxed);
+            st.add("static_precheck_cases", n);
+            st.evaluations += n;
+            if let Some((f, t)) = bad.into_inner().unwrap() {
+                return Err((f, json!({"a": hex(&t.a), "b": hex(&t.b), "c": hex(&t.c)})));
+            }
+        }
         let all = gen_tapes(self, seed, batches * size);
         let known: Vec<String> = load_known().into_iter().filter(|k| k.property == self.id).map(|k| k.signature).collect();
         let next = AtomicU64::new(0);
@@ -321,7 +378,7 @@ impl Property for ProgProp {
             }
         });
         st.merge(merged.into_inner().unwrap());
-        st.add("programs", st.evaluations);
+        st.add("programs", (batches * size) as u64);
         match first.into_inner().unwrap() {
             None => Ok(()),
             Some((f, t)) => {
